@@ -209,7 +209,7 @@ fn order_strategy(ctx: &Ctx) -> BoxedStrategy<OrderCase> {
         .prop_flat_map(move |(w, h)| {
             let clip = prop_oneof![
                 1 => int_rect(w, h).prop_map(|(a, b, c, d)| Op::PushClipRect(a, b, c, d)),
-                1 => grid_poly(w, h, true).prop_map(Op::PushClipPath),
+                1 => pixel_rects_path(w, h).prop_map(Op::PushClipPath),
             ];
             let mut d = Domain::free(w, h);
             d.layers = false;
@@ -285,7 +285,7 @@ pub fn property(ctx: &Ctx) -> Property {
     let (c1, c2, c3) = (ctx.clone(), ctx.clone(), ctx.clone());
     Property {
         id: "C05",
-        rule: "part stack: nested histories (depth <= 5) of push_clip_rect (inside, overlapping, disjoint, inverted, off-surface) and push_clip of quarter-grid polygons (exact coverage from the 4x4 model), quarter-pixel transform changes between pushes, with fill / fill_rect / mask / clear / draw_image_at draws (28 modes, all sources) after every change; after each draw every pixel is judged: outside any pushed rectangle unchanged; rect-only stacks bit-identical to the unclipped draw inside the intersection; with paths the compositor formula with clip coverage = product of all pushed path coverages (exact at 0 and full, +-(3+n)/255 otherwise). part order: the same 2-4 clips (rects and pixel-aligned polygons, coverages 0/255) pushed in two orders give bit-identical pixels for any draw. part noop: inserting balanced draw-free push..pop blocks changes no pixel. Non-trivial: a draw under live clips of both kinds, a draw after a pop, or an empty intersection of rectangles; distinct by hash of the case.",
+        rule: "part stack: nested histories (depth <= 5) of push_clip_rect (inside, overlapping, disjoint, inverted, off-surface) and push_clip of quarter-grid polygons (exact coverage from the 4x4 model), quarter-pixel transform changes between pushes, with fill / fill_rect / mask / clear / draw_image_at draws (28 modes, all sources) after every change; after each draw every pixel is judged: outside any pushed rectangle unchanged; rect-only stacks bit-identical to the unclipped draw inside the intersection; with paths the compositor formula with clip coverage = product of all pushed path coverages (exact at 0 and full, +-(3+n)/255 otherwise). part order: the same 2-4 clips (clip rects and clip paths made of pixel-aligned rectangles, coverages exactly 0/255) pushed in two orders give bit-identical pixels for any draw. part noop: inserting balanced draw-free push..pop blocks changes no pixel. Non-trivial: a draw under live clips of both kinds, a draw after a pop, or an empty intersection of rectangles; distinct by hash of the case.",
         assumptions: vec!["clip paths are quarter-grid polygons under quarter-pixel translations so that their coverage is known exactly (curved clip paths: C08)", "layers inside clip histories are covered by C06"],
         parts: vec![
             part("stack", 30_000, 800_000, move || strategy(&c1), check),
